@@ -14,7 +14,15 @@ static const hfac zblocks[] = {
   {2, {-2, 0, 1}}, {2, {1, 0, 1}}, {2, {1, 1, 1}}, {2, {-1, -1, 1}}, {2, {-1, 0, 2}}, {2, {3, 0, 1}}, {2, {1, -1, 1}}, {2, {2, 2, 1}}, {2, {-3, 0, 5}},
   {3, {-2, 0, 0, 1}}, {3, {1, -3, 0, 1}}, {3, {-1, -1, 0, 1}}, {3, {1, 1, 0, 2}},
   {4, {1, 0, 0, 0, 1}}, {4, {1, 0, -10, 0, 1}}, {4, {-2, 0, 0, 0, 1}}, {4, {1, 1, 1, 1, 1}}, {4, {1, 0, 1, 0, 1}},
+  /* 29..: quartics that split into 3-4 factors modulo small primes, and blocks of degree 5-6 that stay irreducible modulo a small
+     prime: their products need selections of more than half of the lifted factors (the driver certifies every block itself) */
+  {4, {3, 1, 1, 1, 1}}, {4, {1, 0, -1, 0, 1}}, {4, {1, 0, 3, 0, 1}}, {4, {9, 0, -2, 0, 1}},
+  {5, {2, -1, 0, 0, 0, 1}}, {5, {-1, -1, 0, 0, 0, 1}}, {5, {1, 0, 1, 0, 0, 1}}, {6, {1, 0, 0, 1, 0, 0, 1}}, {6, {1, 1, 0, 0, 0, 0, 1}}, {5, {3, 0, 0, 1, 0, 1}},
 };
+#define SPLIT0 29
+#define NSPLIT 4
+#define BIG0 33
+#define NBIG 6
 #define NZBLOCKS (sizeof zblocks / sizeof zblocks[0])
 /* note: x^4+x^2+1 = (x^2+x+1)(x^2-x+1) is NOT irreducible: index 28 is a decoy handled below */
 #define DECOY 28
@@ -27,17 +35,90 @@ static void emit_factors(const lp_upolynomial_factors_t* fs) {
   }
 }
 
+/* product of two random monic polynomials (degree 3-4 times degree 5-6): whatever their splitting pattern modulo the prime the
+   library picks, the factors to be recombined may need more than half of the lifted factors; the driver certifies the
+   irreducibility of both blocks itself (uncertified cases are skipped and counted) */
+/* number of irreducible factors of f modulo the first prime p in 2,3,5,7,11,13 for which f mod p keeps its degree and is square-free
+   (input selection only: the library's own Z_p factorization picks hard instances, the model judges the result) */
+static int modular_factors(const lp_upolynomial_t* f, const lp_upolynomial_t* g, int* of_g) {
+  static const long ps[] = { 2, 3, 5, 7, 11, 13 };
+  for (unsigned k = 0; k < 6; ++k) {
+    lp_integer_t M; lp_integer_construct_from_int(lp_Z, &M, ps[k]);
+    lp_int_ring_t* K = lp_int_ring_create(&M, 1);
+    lp_upolynomial_t* fp = lp_upolynomial_construct_copy_K(K, f);
+    int r = -1;
+    if (lp_upolynomial_degree(fp) == lp_upolynomial_degree(f)) {
+      lp_upolynomial_t* d = lp_upolynomial_derivative(fp);
+      int sqf = 0;
+      if (!lp_upolynomial_is_zero(d)) { lp_upolynomial_t* h = lp_upolynomial_gcd(fp, d); sqf = lp_upolynomial_degree(h) == 0; lp_upolynomial_delete(h); }
+      lp_upolynomial_delete(d);
+      if (sqf) {
+        lp_upolynomial_factors_t* fs = lp_upolynomial_factor(fp); r = (int)lp_upolynomial_factors_size(fs); lp_upolynomial_factors_destruct(fs, 1);
+        lp_upolynomial_t* gp = lp_upolynomial_construct_copy_K(K, g);
+        lp_upolynomial_factors_t* gs = lp_upolynomial_factor(gp); *of_g = (int)lp_upolynomial_factors_size(gs); lp_upolynomial_factors_destruct(gs, 1);
+        lp_upolynomial_delete(gp);
+      }
+    }
+    lp_upolynomial_delete(fp); lp_int_ring_detach(K); lp_integer_destruct(&M);
+    if (r >= 0) return r;
+  }
+  return -1;
+}
+
+/* irreducible modulo one of the primes 2..13 (hence over Z, the polynomial being monic) */
+static int irreducible_mod_some_prime(const lp_upolynomial_t* g) {
+  static const long ps[] = { 2, 3, 5, 7, 11, 13 };
+  int yes = 0;
+  for (unsigned k = 0; k < 6 && !yes; ++k) {
+    lp_integer_t M; lp_integer_construct_from_int(lp_Z, &M, ps[k]);
+    lp_int_ring_t* K = lp_int_ring_create(&M, 1);
+    lp_upolynomial_t* gp = lp_upolynomial_construct_copy_K(K, g);
+    lp_upolynomial_factors_t* gs = lp_upolynomial_factor(gp);
+    size_t m = 0;
+    if (lp_upolynomial_factors_size(gs) == 1) { lp_upolynomial_factors_get_factor(gs, 0, &m); yes = m == 1; }
+    lp_upolynomial_factors_destruct(gs, 1); lp_upolynomial_delete(gp); lp_int_ring_detach(K); lp_integer_destruct(&M);
+  }
+  return yes;
+}
+
+/* product of two random monic polynomials (degree 3-4 times degree 5-6), selected so that the smaller one splits into more than
+   half of the modular factors: recombination must then try selections of more than half of the lifted factors. The driver
+   certifies the irreducibility of both blocks itself (uncertified cases are skipped and counted) */
+static void z_random_pair(void) {
+  lp_upolynomial_t *g = 0, *h = 0, *f = 0;
+  for (int t = 0; t < 40; ++t) {
+    if (f) { lp_upolynomial_delete(f); lp_upolynomial_delete(g); lp_upolynomial_delete(h); }
+    long cg[8] = {0}, ch[8] = {0};
+    unsigned dg = 3 + rnd(2), dh = 5 + rnd(2);
+    for (unsigned i = 0; i < dg; ++i) cg[i] = rnd_in(-3, 3);
+    for (unsigned i = 0; i < dh; ++i) ch[i] = chance(50) ? 0 : rnd_in(-2, 2);
+    cg[dg] = 1; ch[dh] = 1; if (cg[0] == 0) cg[0] = 3; if (ch[0] == 0) ch[0] = 2;
+    g = lp_upolynomial_construct_from_long(lp_Z, dg, cg);
+    h = lp_upolynomial_construct_from_long(lp_Z, dh, ch);
+    f = lp_upolynomial_mul(g, h);
+    int rg = 0, r = modular_factors(f, g, &rg);
+    if (t >= 38 || (r > 0 && 2 * rg > r && rg >= 3 && irreducible_mod_some_prime(g) && irreducible_mod_some_prime(h))) break;
+  }
+  sb_begin("fac", "ufull"); sb_str(" Z "); sb_upoly(f); sb_sp(); sb_long(2); sb_sp(); sb_upoly(g); sb_str(" 1 "); sb_upoly(h); sb_str(" 1"); sb_arrow();
+  lp_upolynomial_factors_t* fs = lp_upolynomial_factor(f);
+  emit_factors(fs); sb_emit();
+  lp_upolynomial_factors_destruct(fs, 1);
+  lp_upolynomial_delete(f); lp_upolynomial_delete(g); lp_upolynomial_delete(h);
+}
+
 static void z_case(void) {
+  if (chance(22)) { z_random_pair(); return; }
   /* product of blocks with multiplicities, times a content */
   int idx[6], mult[6], nb = 0; unsigned deg = 0;
   unsigned shape = rnd(100);
-  int target = shape < 20 ? 5 : 1 + rnd(3);                    /* many small factors force recombination */
+  int target = shape < 20 ? 5 : (shape < 34 ? 2 : 1 + rnd(3));                    /* many small factors force recombination */
   for (int t = 0; t < 12 && nb < target; ++t) {
     int j = shape < 20 ? (int)rnd(11) : (int)rnd(NZBLOCKS);
+    if (shape >= 20 && shape < 34) j = nb == 0 ? (chance(50) ? SPLIT0 + (int)rnd(NSPLIT) : 24 + (int)rnd(2)) : BIG0 + (int)rnd(NBIG);   /* split quartic x big block */
     if (j == DECOY) continue;
     int dup = 0; for (int k = 0; k < nb; ++k) if (idx[k] == j) dup = 1;
     if (dup) continue;
-    int m = chance(70) ? 1 : 1 + rnd(3);
+    int m = chance(70) || (shape >= 20 && shape < 34) ? 1 : 1 + rnd(3);
     if (deg + zblocks[j].deg * m > 10) continue;
     idx[nb] = j; mult[nb] = m; ++nb; deg += zblocks[j].deg * m;
   }
